@@ -1,5 +1,6 @@
 import GodiModel.Conc
 import Driver.Util
+import Std.Data.HashSet
 /-! Line protocol for M6 (`k …` lines): replay of the harness' forced schedules.
 
 A schedule step `k go <id> :: <snapshot>` releases harness thread `<id>` from the point of user code
@@ -69,15 +70,32 @@ def movers (st : St) (s : Sys) : List Nat :=
     | some th => (t ≥ st.n || (st.started.getD t false && !isUser th.pc)) && th.enabled s.sh
     | none => false)
 
-/-- all states in which nothing moves any more, reachable by letting the movers run in any order -/
-partial def settle (st : St) (todo seen out : List Sys) : List Sys :=
+/-- control steps that neither read nor write shared state: they commute with every action of every
+other thread, so taking one at once (instead of branching) loses no reachable quiescent state -/
+def isLocal : Pc → Bool
+  | .rMu _ _ | .cKids _ _ | .pScopes _ | .cDrain [] _ | .sSpawn _ => true
+  | _ => false
+
+/-- `kidDisp` / `kidClosed` are only ever asked for membership: their order is irrelevant -/
+def canon (s : Sys) : Sys :=
+  { s with sh := { s.sh with kidDisp := sortNats s.sh.kidDisp, kidClosed := sortNats s.sh.kidClosed } }
+
+/-- all states in which nothing moves any more, reachable by letting the movers run in any order;
+`none` when more than `limit` states would have to be visited -/
+partial def settle (st : St) (limit : Nat) (todo : List Sys) (seen : Std.HashSet Sys) (out : List Sys) :
+    Option (List Sys) :=
   match todo with
-  | [] => out
+  | [] => some out
   | s :: rest =>
-    if seen.contains s then settle st rest seen out else
+    if seen.contains s then settle st limit rest seen out else
+    if seen.size > limit then none else
     let ms := movers st s
-    if ms.isEmpty then settle st rest (s :: seen) (if out.contains s then out else s :: out)
-    else settle st (ms.filterMap (step? s) ++ rest) (s :: seen) out
+    let seen := seen.insert s
+    if ms.isEmpty then settle st limit rest seen (let c := canon s; if out.contains c then out else c :: out)
+    else
+      let loc := ms.filter (fun t => match s.thr[t]? with | some th => isLocal th.pc | none => false)
+      let ms := match loc with | t :: _ => [t] | [] => ms
+      settle st limit (ms.filterMap (step? s) ++ rest) seen out
 
 def mkThr (kind : String) (flags : List String) : Option Thr :=
   let cfg : Cfg := { failA := flags.contains "failA", failB := flags.contains "failB",
@@ -130,7 +148,9 @@ def step (st : St) (ws : List String) : St × String :=
           | none => none)
         else st.cands
       if after.isEmpty then (st', "mismatch: thread is not parked in user code in the model") else
-      let finals := settle st' after [] []
+      match settle st' 400000 after {} [] with
+      | none => (st', "mismatch: the model has too many interleavings to enumerate here")
+      | some finals =>
       let good := finals.filter (fun s => snapshot st' s == obs)
       if good.isEmpty then
         (st', "mismatch: model allows { " ++ " | ".intercalate (dedup (finals.map (snapshot st'))) ++ " }")
